@@ -476,10 +476,20 @@ DriftTags == {"drift.unreach", "drift.load", "drift.model"}
 Violations(tags) == tags \ DriftTags
 
 -----------------------------------------------------------------------------
-(* Impl-shaped layer: the calls as lopdf runs them.  dev = switches (TRUE = as the code is). *)
+(* Impl-shaped layer: the calls as lopdf runs them.  dev = switches; each re-creates, when TRUE, one   *)
+(* deviation that was confirmed and then repaired in lopdf:                                            *)
+(*   dup     delete_object removes only the first matching array element        (fix: a80f4e6)        *)
+(*   sdict   delete_object does not strip entries of stream dictionaries         (fix: 189bbea)        *)
+(*   trailer delete_object does not strip entries of the trailer                 (fix: 6eb5138)        *)
+(*   refarr  Contents = reference to an array is treated as reference to a stream (fix: 3fbe7c2)       *)
+(*   shadow  get_or_create_resources installs an empty own Resources dictionary   (fix: ea71ea1)       *)
+(* DevAsIs = the code as it is (every switch FALSE; asis marks the behaviours whose model results are  *)
+(* compared with lopdf's), DevSeeded = the five repaired defects seeded back (a negative control of the *)
+(* declarative layer: its violations must be exactly the five former findings).                        *)
 
-DevAsIs     == [asis |-> TRUE, dup |-> TRUE, sdict |-> TRUE, trailer |-> TRUE, shadow |-> TRUE, refarr |-> TRUE]
-DevRepaired == [asis |-> FALSE, dup |-> FALSE, sdict |-> FALSE, trailer |-> FALSE, shadow |-> FALSE, refarr |-> FALSE]
+DevAsIs     == [asis |-> TRUE, dup |-> FALSE, sdict |-> FALSE, trailer |-> FALSE, shadow |-> FALSE, refarr |-> FALSE]
+DevSeeded   == [asis |-> FALSE, dup |-> TRUE, sdict |-> TRUE, trailer |-> TRUE, shadow |-> TRUE, refarr |-> TRUE]
+FormerFindings == {"delete.array.dup", "delete.streamdict", "delete.trailer", "resources.shadow", "contents.refToArray"}
 
 Out(d, res) == [doc |-> d, res |-> res]
 
